@@ -43,6 +43,11 @@ def build_holstein(h):
     return HolsteinModel(mols, Quantity(h["J"]), scheme=h["scheme"], periodic=periodic)
 
 
+def draw_scheme(case):
+    """tree purification uses the one-basis-per-degree-of-freedom layouts (schemes 1-3)"""
+    return case["holstein"]["scheme"] if case["holstein"]["scheme"] < 4 else 2
+
+
 def local_h(model, h, space):
     """documented local vibrational Hamiltonian per site (harness ladder matrices); identity on electronic sites.
     returns list of per-site matrices h_i (zero for electronic sites)"""
@@ -84,7 +89,8 @@ def expm_herm(H, z):
 
 @st.composite
 def cases(draw, tier):
-    mode = draw(st.sampled_from(["imag", "imag", "imag_poly", "imag_cmf", "thermal", "thermal_exact", "propagator", "evolve_exact"]))
+    mode = draw(st.sampled_from(["imag", "imag", "imag_poly", "imag_cmf", "thermal", "thermal_exact", "propagator", "evolve_exact",
+                                 "thermal_tree"]))
     c = {"mode": mode, "rng": draw(st.integers(0, 10 ** 6)), "q": draw(st.integers(0, 50)), "cplx": draw(st.booleans()),
          "gauge": draw(st.integers(0, 2)), "coeff": draw(st.sampled_from([[1.0, 0.0], [0.6, 0.8], [2.0, 0.0]])),
          "htau": draw(st.sampled_from([0.03, 0.05, 0.1, 0.3, 0.5, 1.0, 2.0, 3.0])), "normalize": draw(st.integers(0, 3)) > 0,
@@ -108,6 +114,8 @@ def cases(draw, tier):
         c["beta_step"] = draw(st.sampled_from([0.02, 0.05, 0.1, 0.3, 1.0]))
         c["m0"] = draw(st.sampled_from([1, 2, 4]))
         c["taylor"] = draw(st.sampled_from([None, 3, 4, 6]))
+        c["tree_ctor"] = draw(st.sampled_from(["linear", "binary", "random"]))
+        c["tree_parent"] = draw(st.lists(st.integers(0, 9), min_size=8, max_size=8))
     return c
 
 
@@ -345,6 +353,70 @@ class C10(Prop):
             r.check_close("thermal.e_occ_vs_gibbs", np.asarray(tp.e_occupations_array[k], dtype=float), occ_g, tol / sc + 1e-8, f"step {k}: occupations vs Gibbs")
         r.nontrivial = case["beta_step"] * nstep >= 0.05
         r.check_close("thermal.time_series", [-t.imag if k else 0.0 for k, t in enumerate(tp.evolve_times)], [tau * k for k in range(nstep + 1)], 1e-12, "evolve_times")
+
+    def run_thermal_tree(self, case, r):
+        """purification on a tree with auxiliary space: max_entangled_ex(tree.add_auxiliary_space()) propagated in imaginary time
+        with a TTNO that acts on the physical half only -> canonical (one-exciton) ensemble averages"""
+        from renormalizer.mps import Mpo
+        from renormalizer.tn import BasisTree, TTNO, TreeNodeBasis
+        from renormalizer.tn.utils_eph import max_entangled_ex
+        from renormalizer.utils import EvolveConfig, EvolveMethod, CompressConfig, CompressCriteria
+        from renormalizer.model import Op
+
+        h = dict(case["holstein"], scheme=draw_scheme(case))
+        model = build_holstein(h)
+        H = np.asarray(Mpo(model).todense())
+        bl = list(model.basis)
+        if case["tree_ctor"] == "linear" or len(bl) < 3:
+            tree = BasisTree.linear(bl)
+        elif case["tree_ctor"] == "binary":
+            tree = BasisTree.binary(bl)
+        else:
+            nodes = [TreeNodeBasis([b]) for b in bl]
+            for i in range(1, len(nodes)):
+                nodes[case["tree_parent"][i % 8] % i].add_child(nodes[i])
+            tree = BasisTree(nodes[0])
+        aux = tree.add_auxiliary_space()
+        psi = max_entangled_ex(aux)
+        ttno = TTNO(aux, model.ham_terms)
+        hn = np.linalg.norm(H, 2)
+        nstep = case["nstep"]
+        tau = case["beta_step"] / max(hn, 1e-12)
+        # dense replica on the physical density operator: rho0 = equal weights on all one-exciton basis states
+        nexc = np.asarray(sum(np.asarray(Mpo(model, Op(r"a^\dagger a", d)).todense()) for d in model.e_dofs))
+        one = np.isclose(np.diag(nexc), 1.0)
+        rho = np.diag(one.astype(float))
+        rho = rho / np.linalg.norm(rho)
+        e_ops = [np.asarray(Mpo(model, Op(r"a^\dagger a", d)).todense()) for d in model.e_dofs]
+        e_ttnos = [TTNO(aux, Op(r"a^\dagger a", d)) for d in model.e_dofs]
+        psi.evolve_config = EvolveConfig(EvolveMethod.prop_and_compress_tdrk4)
+        psi.compress_config = CompressConfig(CompressCriteria.fixed, max_bonddim=BIG)
+        E = [self._avg(rho, H)]
+        got_E = [psi.expectation(ttno) / psi.ttns_norm ** 2]
+        sc = max(hn, 1.0)
+        r.check_close("thermal_tree.initial_energy", got_E[0], E[0], 1e-9 * sc, "energy of the maximally entangled one-exciton tree state")
+        cur = psi
+        D = H.shape[0]
+        for k in range(nstep):
+            cur.evolve_config = EvolveConfig(EvolveMethod.prop_and_compress_tdrk4)
+            cur.compress_config = CompressConfig(CompressCriteria.fixed, max_bonddim=BIG)
+            cur = cur.evolve(ttno, -1j * tau)
+            rho = evo.taylor_apply(-tau * H, rho.astype(complex), 4)
+            rho = rho / np.linalg.norm(rho)
+            E.append(self._avg(rho, H))
+            got_E.append(cur.expectation(ttno) / cur.ttns_norm ** 2)
+        r.check_close("thermal_tree.energies_vs_replica", np.asarray(got_E, dtype=float), np.asarray(E), 1e-8 * sc, "tree purification energies vs dense Taylor-4 replica")
+        occ = np.array([cur.expectation(o) / cur.ttns_norm ** 2 for o in e_ttnos], dtype=float)
+        r.check_close("thermal_tree.occupations_vs_replica", occ, np.array([self._avg(rho, O) for O in e_ops]), 1e-8, "electronic occupations vs replica")
+        beta = 2 * tau * nstep
+        g = expm_herm(H, -beta / 2) @ np.diag(one.astype(float))
+        from math import factorial
+        x = case["beta_step"]
+        tol = (nstep * 4.0 * x ** 5 / factorial(5) * np.exp(x) + 1e-8) * sc
+        r.check("thermal_tree.energy_vs_gibbs", abs(got_E[-1] - self._avg(g, H)) <= tol, f"beta={beta:.4f}: {got_E[-1]} vs Gibbs {self._avg(g, H)} tol {tol:.2e}")
+        r.check_close("thermal_tree.unit_norm", cur.ttns_norm, 1.0, 1e-8, "normalised after imaginary-time step")
+        r.classes += [f"tree.{case['tree_ctor']}", f"nmol={len(h['mols'])}"]
+        r.nontrivial = case["beta_step"] * nstep >= 0.05 and len(bl) >= 3
 
     def run_thermal_exact(self, case, r):
         from renormalizer.mps import ThermalProp, Mpo
